@@ -1,13 +1,14 @@
 import SimilarVerif.Lemmas.Replace
+import SimilarVerif.Lemmas.CompactTotal
 /-!
 # C09 — captured diffs are in canonical normal form
 
 Clauses 1–3 (Equal / non-Equal strictly alternate, so no Delete is adjacent to an Insert — they are one
 Replace with the deletions first — and no op is empty) hold for the output of `Replace` on ANY valid
 script, hence for every captured diff once `Compact` is known to deliver a valid script (C10's
-compaction half). Clause 4 (a pure insertion followed by equal items sits at its latest position) is a
-property of the insert pass of `cleanup_diff_ops` (Lemmas/Compact.lean, in progress) and is covered by
-the correspondence and the normal-form validator until then.
+compaction half). Clause 4 (a pure insertion followed by equal items sits at its latest position) is the
+outer-loop invariant of the insert pass of `cleanup_diff_ops` (Lemmas/CompactTotal.lean), proved for
+every valid script.
 -/
 namespace SimilarVerif.C09
 open SimilarVerif Spec
@@ -53,5 +54,15 @@ theorem walk_no_empty (e : Nat → Nat → Bool) : ∀ (ops : List Op) (o n o' n
     all_goals first
       | (simp [Op.isEmpty, Op.oLen, Op.nLen]; omega)
       | exact ih _ _ _ _ (by first | exact h.2.2.2.2 | exact h.2.2) x hx
+
+end SimilarVerif.C09
+
+namespace SimilarVerif.C09
+open SimilarVerif Spec
+
+/-- **clause 4**: after the clean-up a pure insertion that is followed by equal items sits at its
+latest position — its first inserted item differs from the first equal item after it — for every
+valid script, shipped and repaired variant, every loop bound -/
+theorem insertion_at_latest_position : type_of% @CompactT.cleanup_insert_latest := @CompactT.cleanup_insert_latest
 
 end SimilarVerif.C09
